@@ -324,6 +324,87 @@ Proof. intros; repeat split; try (apply engines_fwd_agree; auto); try (apply eng
 End Packaged.
 
 (* ------------------------------------------------------------------ *)
+(* real FFT (real=True): half spectrum, sqrt(2) on bins 1..(N-1)/2, adjoint
+   w.r.t. the REAL inner product Re<a,b>.  Library primitives:
+     rfft(x, n=N)   = first N/2+1 rows of DFT_N
+     N * irfft(y,N) = Re y_0 + 2 sum_{1<=k<=(N-1)/2} Re(y_k conj(w)^(j k)) + [N even] Re(y_{N/2} conj(w)^(j N/2))
+   (the C2R transform ignores the imaginary parts of the zero and Nyquist
+   bins).  s2 is the real number sqrt 2: parameter with s2*s2 = 1+1. *)
+Section RealFFT.
+Variable F : FieldS.
+Add Field Frf : (fth F).
+Notation vec := (list F).
+Notation cj := (conj F).
+Variable w : F.
+Variable N : nat.
+Variable s2 : F.
+Hypothesis s2_sq : s2 * s2 = 1 + 1.
+Hypothesis s2_real : cj s2 = s2.
+Hypothesis two_nz : (1 + 1 : F) <> 0.
+Notation K := (N / 2 + 1)%nat.
+Notation half := (1 / (1 + 1)).
+
+Lemma s2_nz : s2 <> 0.
+Proof. intros E. apply two_nz. rewrite <- s2_sq, E. ring. Qed.
+
+Definition midb (k : nat) : bool := (Nat.leb 1 k && Nat.ltb k (1 + (N - 1) / 2))%bool.
+Definition cfac (k : nat) : F := if midb k then s2 else 1.          (* y[..., 1:1+(nfft-1)//2] *= sqrt(2) *)
+Definition mfac (k : nat) : F := if midb k then 1 + 1 else 1.        (* Hermitian completion weight of C2R *)
+Definition re2 (a : F) : F := a + cj a.                              (* 2 Re a *)
+
+Definition lib_rfft (x : vec) : vec := dft F w K x.
+Definition lib_c2r (n : nat) (y : vec) : vec :=                       (* N * irfft(y, n=N), first n samples *)
+  tab (fun j => half * re2 (bsum (fun k => mfac k * (rpow (cj w) (j * k) * nth k y 0)) K)) n.
+
+(* fft.py _matvec / _rmatvec, real=True, norm='none' (an extra real scale factors out) *)
+Definition rfwd (x : vec) : vec := tab (fun k => cfac k * nth k (lib_rfft x) 0) K.
+Definition radj (n : nat) (y : vec) : vec := lib_c2r n (tab (fun k => nth k y 0 / cfac k) K).
+
+Lemma cfac_real k : cj (cfac k) = cfac k.
+Proof. unfold cfac; destruct (midb k); auto using conj_one. Qed.
+Lemma cfac_nz k : cfac k <> 0.
+Proof. unfold cfac; destruct (midb k); [apply s2_nz | apply (F_1_neq_0 (fth F))]. Qed.
+Lemma m_over_c k : mfac k / cfac k = cfac k.
+Proof. unfold mfac, cfac. destruct (midb k).
+  - rewrite <- s2_sq. field. apply s2_nz.
+  - field. apply (F_1_neq_0 (fth F)). Qed.
+Lemma re2_add a b : re2 (a + b) = re2 a + re2 b.
+Proof. unfold re2; rewrite conj_add; ring. Qed.
+Lemma re2_bsum f n : re2 (bsum f n) = bsum (fun k => re2 (f k)) n.
+Proof. induction n as [|n IH]; simpl.
+  - unfold re2; rewrite conj_zero; ring.
+  - rewrite re2_add, IH; auto. Qed.
+Lemma re2_real_scale a b : cj a = a -> a * re2 b = re2 (a * b).
+Proof. intros H; unfold re2; rewrite conj_mul, H; ring. Qed.
+
+(* ADJOINT identity for the real inner product: for REAL x,
+   Re <rfwd x, y> = <x, radj y>   (stated as half * 2Re) *)
+Theorem rfft_adjoint x y : (forall j, cj (nth j x 0) = nth j x 0) -> length y = K ->
+  half * re2 (dot F (rfwd x) y) = dotu F x (radj (length x) y).
+Proof. intros Hx Hy.
+  rewrite dot_bsum by (unfold rfwd; rewrite tab_length; auto).
+  rewrite dotu_bsum by (unfold radj, lib_c2r; rewrite tab_length; auto).
+  unfold rfwd at 2. rewrite tab_length.
+  (* left: double sum *)
+  rewrite (bsum_ext F _ (fun k => bsum (fun j => nth j x 0 * (cfac k * (rpow (cj w) (j * k) * nth k y 0))) (length x))).
+  2:{ intros k Hk. unfold rfwd, lib_rfft. rewrite nth_tab by auto. rewrite (dft_entry F) by auto.
+      rewrite conj_mul, cfac_real, conj_bsum, <- bsum_scale, <- bsum_scale_r.
+      apply bsum_ext; intros j _. rewrite conj_mul, conj_rpow, Hx. ring. }
+  rewrite bsum_swap.
+  (* right: pull the real x_j inside *)
+  rewrite re2_bsum, <- bsum_scale. apply bsum_ext; intros j Hj.
+  unfold radj, lib_c2r. rewrite nth_tab by auto.
+  replace (nth j x 0 * (half * re2 (bsum (fun k => mfac k * (rpow (cj w) (j * k) * nth k (tab (fun k0 => nth k0 y 0 / cfac k0) K) 0)) K)))
+    with (half * (nth j x 0 * re2 (bsum (fun k => mfac k * (rpow (cj w) (j * k) * nth k (tab (fun k0 => nth k0 y 0 / cfac k0) K) 0)) K))) by ring.
+  rewrite (re2_real_scale (nth j x 0)) by apply Hx. f_equal. f_equal.
+  rewrite <- bsum_scale. apply bsum_ext; intros k Hk.
+  rewrite nth_tab by auto.
+  replace (mfac k * (rpow (cj w) (j * k) * (nth k y 0 / cfac k))) with (mfac k / cfac k * (rpow (cj w) (j * k) * nth k y 0))
+    by (field; apply cfac_nz).
+  rewrite m_over_c. reflexivity. Qed.
+End RealFFT.
+
+(* ------------------------------------------------------------------ *)
 (* exact instances: Gaussian rationals, N = 1, 2, 4, w = 1, -1, -i     *)
 From Coq Require Import QArith Qcanon.
 From PV Require Import GaussQc GaussField.
